@@ -40,6 +40,13 @@ def jobs_for(tier):
                                 label="%s/%s/%s%s" % (name, api, "array" if array else "pointer", "/yylineno" if lineno else ""))
                     jobs.append(dict(groups=[g], options=opts, api=api, cdefs=(["VF_ARRAY"] if array else []), knobs=knobs,
                                      tag="%s-%s-%d-%d" % (name, api, array, lineno), driver_args=["-H", "80"]))
+                    # the same histories on in-memory sources (yy_scan_string / yy_scan_bytes / yy_scan_buffer): buffers that are never
+                    # refilled take their own path through yy_get_next_buffer (a token ending exactly at the end of the buffer)
+                    if not lineno and (not quick or name != "trail"):
+                        for src in (1, 2, 3):
+                            kn = dict(knobs, VF_BUFSIZES="0")
+                            jobs.append(dict(groups=[g], options=opts, api=api, cdefs=(["VF_ARRAY"] if array else []) + ["VF_SOURCE_SCAN=%d" % src], knobs=kn,
+                                             tag="%s-%s-%d-scan%d" % (name, api, array, src), driver_args=["-H", "80"]))
     return jobs
 
 
